@@ -1188,6 +1188,97 @@ def r10(k: Kit) -> None:
     rep.floor('C14.R10', 'peer bytes decoded into error text', n, 2)
 
 
+def r11(k: Kit) -> None:
+    """A malformed reply body is an SFTP error for the caller."""
+    from ..index import parent
+    rep = k.rep
+    rep.rule('C14.R11', 'SFTPClientHandler._make_request dispatches the '
+             'reply to its type\'s parser inside a try whose handler turns '
+             'PacketDecodeError into an SFTPError (SFTPBadMessage): a reply '
+             'of the right type with a truncated body reaches the caller of '
+             'open() / stat() / read() as the documented error class, not '
+             'as a bare ValueError subclass')
+    fi = k.func('sftp.SFTPClientHandler._make_request')
+    sites = [c for c in ast.walk(fi.node) if isinstance(c, ast.Call) and
+             isinstance(c.func, ast.Subscript) and
+             dotted(c.func.value) == 'self._packet_handlers']
+    rep.floor('C14.R11', 'reply parser dispatch', len(sites), 1)
+    for c in sites:
+        ok = False
+        x = c
+        while x is not None and x is not fi.node:
+            x = parent(x)
+            if isinstance(x, ast.Try):
+                for h in x.handlers:
+                    names = [dotted(t) for t in (
+                        h.type.elts if isinstance(h.type, ast.Tuple)
+                        else [h.type])] if h.type is not None else []
+                    if any(nm in ('PacketDecodeError', 'ValueError')
+                           for nm in names) and any(
+                        isinstance(r, ast.Raise) and
+                        isinstance(r.exc, ast.Call) and
+                        (dotted(r.exc.func) or '').startswith('SFTP')
+                            for r in ast.walk(h)):
+                        ok = True
+        rep.check(ok, 'C14.R11', key(fi, 'reply body errors are SFTP errors'),
+                  'PacketDecodeError -> SFTPBadMessage',
+                  'the reply parsers run in the caller\'s context with no '
+                  'conversion: FXP_HANDLE with a string length of 10 and 3 '
+                  'bytes of data makes sftp.open() raise PacketDecodeError '
+                  '(a ValueError), and the sibling tasks of a parallel read '
+                  'are left to the loop\'s exception handler', fi.loc(c))
+
+
+def r12(k: Kit) -> None:
+    """The negotiated version is one the codecs exist for."""
+    rep = k.rep
+    idx = k.idx
+    rep.rule('C14.R12', 'SFTPServerHandler.run stores the negotiated version '
+             'only past a lower-bound test of the client\'s FXP_INIT version '
+             'against MIN_SFTP_VERSION (the client side tests both bounds): '
+             'with version 2 the server would answer FXP_VERSION 2 and then '
+             'encode attributes and names in a mixture no version defines')
+    fi = k.func('sftp.SFTPServerHandler.run')
+    g = k.cfg(fi)
+    sts = [n for n, v in k.stores_to(fi, 'self._version')
+           if v is not None and 'version' in names_read(v)]
+    rep.floor('C14.R12', 'negotiated version stores', len(sts), 1)
+    lo = idx.fold_name(fi.module, 'MIN_SFTP_VERSION')
+
+    def bounded(x: Node) -> Optional[bool]:
+        a = x.ast
+        if x.kind != 'atom' or not isinstance(a, ast.Compare):
+            return None
+        ops = a.ops
+        terms = [a.left] + list(a.comparators)
+        for i, op in enumerate(ops):
+            l, r = terms[i], terms[i + 1]
+            lv = idx.fold(fi.module, l) if dotted(l) != 'version' else None
+            rv = idx.fold(fi.module, r) if dotted(r) != 'version' else None
+            if dotted(l) == 'version' and rv == lo:
+                if isinstance(op, ast.Lt):
+                    return False
+                if isinstance(op, ast.GtE):
+                    return True
+            if dotted(r) == 'version' and lv == lo:
+                if isinstance(op, ast.LtE):
+                    return True
+                if isinstance(op, ast.Gt):
+                    return False
+        return None
+    for n in sts:
+        w = g.guarded_by(n.id, bounded)
+        clamp = any(is_call(c, 'max') and 'MIN_SFTP_VERSION' in unparse(c)
+                    for c in ast.walk(n.ast))
+        rep.check(w is None or clamp, 'C14.R12',
+                  key(fi, 'client version has a lower bound'),
+                  'version >= MIN_SFTP_VERSION on every path to the store',
+                  'FXP_INIT with version 0, 1 or 2 is accepted: the server '
+                  'replies with that version and serves the session with '
+                  'attribute and name encodings of no protocol version',
+                  k.loc(fi, n), g.describe_path(w) if w else None)
+
+
 def run(idx, rep, tier):
     k = Kit(idx, rep)
     rep.assumptions += NOT_DECIDED
@@ -1206,3 +1297,5 @@ def run(idx, rep, tier):
              'the process (ids are per session: two sessions both use id 0)')
     per_instance_state(k, 'C14.R9', ['sftp'], 5)
     r10(k)
+    r11(k)
+    r12(k)
